@@ -213,8 +213,87 @@ fn fp_of_debug(v: &Value) -> u64 {
     crate::prng::hash_str(&format!("{v:?}"))
 }
 
+/// A writer that accepts at most `chunk` bytes per write(), returns Interrupted every few calls, and (when
+/// `fail_after` is set) fails for good once that many bytes were taken.
+struct HostileWriter {
+    out: Vec<u8>,
+    chunk: usize,
+    calls: u64,
+    fail_after: Option<usize>,
+}
+impl std::io::Write for HostileWriter {
+    fn write(&mut self, buf: &[u8]) -> std::io::Result<usize> {
+        self.calls += 1;
+        if self.calls % 5 == 3 {
+            return Err(std::io::Error::new(std::io::ErrorKind::Interrupted, "interrupted"));
+        }
+        if let Some(limit) = self.fail_after {
+            if self.out.len() >= limit {
+                return Err(std::io::Error::new(std::io::ErrorKind::BrokenPipe, "peer went away"));
+            }
+        }
+        let mut n = buf.len().min(self.chunk.max(1));
+        if let Some(limit) = self.fail_after {
+            n = n.min(limit - self.out.len());
+        }
+        self.out.extend_from_slice(&buf[..n]);
+        Ok(n)
+    }
+    fn flush(&mut self) -> std::io::Result<()> {
+        Ok(())
+    }
+}
+
+/// Streaming encoders into writers that take a few bytes at a time / fail midway: never a panic; a writer that never
+/// fails for good receives exactly the bytes of the buffered encoding; a writer that fails yields an error.
+fn encode_to_writers(ctx: &mut Ctx, v: &Value, origin: &str) {
+    let seed = fp_of_debug(v);
+    let chunk = 1 + (seed % 7) as usize;
+    for fmt in ["zinc", "hayson"] {
+        let buffered: Option<Vec<u8>> = match catch(|| if fmt == "zinc" { to_zinc_string(v).ok().map(String::into_bytes) } else { serde_json::to_vec(v).ok() }) {
+            Ok(b) => b,
+            Err(_) => continue, // reported by encode_all
+        };
+        let run = |fail_after: Option<usize>| {
+            catch(|| {
+                let mut w = HostileWriter { out: Vec::new(), chunk, calls: seed % 5, fail_after };
+                let ok = if fmt == "zinc" { v.to_zinc(&mut w).is_ok() } else { serde_json::to_writer(&mut w, v).is_ok() };
+                (ok, w.out)
+            })
+        };
+        match run(None) {
+            Err(p) => ctx.violation(&format!("encoder-panic:{fmt}-writer:{}:{}", panic_sig(&p), kind_path(v)), &format!("{fmt} encoding into a short-write writer panicked on a {} ({origin}): {}", kind_path(v), p.msg), json!({"value_debug": truncate(&format!("{v:?}"), 1200)})),
+            Ok((ok, bytes)) => {
+                ctx.stratum("writer:short-writes");
+                match &buffered {
+                    Some(b) if !ok || *b != bytes => ctx.violation(&format!("writer:{fmt}:stream-differs-from-buffer:{}", kind_path(v)), &format!("{fmt} encoding into a writer that takes {chunk} byte(s) at a time gave {} bytes (ok={ok}), the buffered encoding has {}", bytes.len(), b.len()), json!({"value_debug": truncate(&format!("{v:?}"), 800)})),
+                    None if ok => ctx.violation(&format!("writer:{fmt}:stream-succeeds-buffer-fails:{}", kind_path(v)), "the streaming encoder succeeded where the buffered one returns an error", json!({"value_debug": truncate(&format!("{v:?}"), 800)})),
+                    _ => {}
+                }
+            }
+        }
+        if let Some(b) = &buffered {
+            if !b.is_empty() {
+                let cut = (seed as usize / 7) % b.len();
+                match run(Some(cut)) {
+                    Err(p) => ctx.violation(&format!("encoder-panic:{fmt}-failing-writer:{}:{}", panic_sig(&p), kind_path(v)), &format!("{fmt} encoding into a writer that fails after {cut} bytes panicked: {}", p.msg), json!({"value_debug": truncate(&format!("{v:?}"), 1200)})),
+                    Ok((ok, bytes)) => {
+                        ctx.stratum("writer:fails-midway");
+                        if ok {
+                            ctx.violation(&format!("writer:{fmt}:io-error-swallowed:{}", kind_path(v)), &format!("the writer failed after {cut} of {} bytes but the encoder reported success", b.len()), json!({"value_debug": truncate(&format!("{v:?}"), 800)}));
+                        } else if !b.starts_with(&bytes) {
+                            ctx.violation(&format!("writer:{fmt}:partial-output-not-a-prefix:{}", kind_path(v)), "the bytes written before the failure are not a prefix of the buffered encoding", json!({"value_debug": truncate(&format!("{v:?}"), 800)}));
+                        }
+                    }
+                }
+            }
+        }
+    }
+}
+
 /// Run every encoder on the value; any panic is a violation.
 pub fn encode_all(ctx: &mut Ctx, v: &Value, origin: &str) {
+    encode_to_writers(ctx, v, origin);
     let encoders: [(&str, Box<dyn Fn(&Value)>); 8] = [
         ("to_zinc_string", Box::new(|v| {
             let _ = to_zinc_string(v);
